@@ -25,7 +25,7 @@ ASSUMPTIONS = [
     "within one program every termination target (header name, parameter name, body, URI) is used once",
     "the base URI of an initial request is known to the recovering side (passed as base_uri when the API offers it)",
 ]
-BOUNDS = {"quick": {"depth": 2, "multi_depth": 1}, "thorough": {"depth": 3, "multi_depth": 1}}
+BOUNDS = {"quick": {"depth": 3, "multi_depth": 1}, "thorough": {"depth": 4, "multi_depth": 1}}
 
 MASKS = (0x00000000, 0xFFFFFFFF, 0x41414141, 0x0D0A3D00, 0xDEADBEEF)
 ENC = [("BASE64", None), ("BASE64URL", None), ("NETBIOS", None), ("NETBIOSU", None), ("MASK", None),
